@@ -157,7 +157,10 @@ def build(spec):
             kw['coating'] = SimpleCoating(s['coating'][0], s['coating'][1])
         o.add_surface(index=i + 1, surface_type=s.get('type', 'standard'), thickness=s['thickness'],
                       material=m, is_stop=bool(s.get('is_stop')), **kw)
-    o.add_surface(index=len(spec['surfaces']) + 1)
+    ikw = {}
+    if spec.get('image_radius'):          # curved image surface (C09: the chief ray does not land in the vertex plane)
+        ikw['radius'] = spec['image_radius']
+    o.add_surface(index=len(spec['surfaces']) + 1, **ikw)
     o.set_aperture(spec['aperture'][0], spec['aperture'][1])
     o.set_field_type(spec['field_type'])
     for f in spec['fields']:
